@@ -49,6 +49,22 @@ RULE = ('random model scripts (1-5 equations; lags/leads, {parameters}, <errors>
         '"x " vs "x" are told apart: keys symbols-roundtrip-str-altered / -str-lost / -tuple-neq). str-valued model '
         'variables with edge-whitespace cells, variable names (column labels) and span labels (list / NumPy / pandas '
         'Index) with edge whitespace or \'\' go through the same table oracles. '
+        'NAME-DEPENDENT ACCESS PATHS: the ground truth of every oracle (and the input of the Lean model) is the array in '
+        'the object\'s storage, __dict__[\'_\' + name], never obj[name] / getattr; every exported column is compared with it '
+        'cell by cell (floats by IEEE bits), byte-wise and by dtype, and a mismatch is classified (df-/container-'
+        'column-not-a-series, -column-holds-other-series, -values, -dtype, -export-raises; from-dataframe-holds-other-series, '
+        '-not-a-series). Name pools: UNDERSCORE TWINS (x, _x, __x, _x_ variables of one object, either order) and MEMBER-LIKE '
+        'names = dir(BaseModel) + dir(BaseLinker) + dir(VectorContainer) + instance attributes (_attributes) + __dict__ keys '
+        '(and the names whose storage key they are) + constructor / from_dataframe parameters + a static list (properties '
+        'size/nbytes/values/strict/LAGS, methods copy/eval/solve/to_dataframe/..., class attributes NAMES/CODE/..., dunders). '
+        'EXHAUSTIVE (seed-independent): every pool name x host in {declared by a hand-written BaseModel subclass, added with '
+        'add_variable, parser-built script, plain VectorContainer, declared / run-time core variable of a linker whose '
+        'submodel carries the same name}, built only where the code accepts the name (refusals counted per host and kind: '
+        'refused:<host>:<kind>), each also next to its own twins; RANDOM: instances mixing 2-4 members of a twin group, 0-3 '
+        'accepted member-like names and ordinary names in random order on all hosts, linkers with such submodels and core '
+        'variables; 40% of the main population gets twin / member-like run-time variables too. In all of these EVERY SERIES '
+        'IS UNIQUE (base = hash of the name + position; counted: series-all-unique), so a column holding another '
+        'variable\'s series cannot pass. '
         'distinct = distinct (instance recipe, entry point, flags) resp. distinct symbol list; non-trivial = at least '
         'one variable and one period resp. a non-empty list')
 TRUSTED = ['pandas (DataFrame construction from a dict of arrays / a list of dicts, Index construction from the span, '
@@ -62,6 +78,12 @@ TRUSTED = ['pandas (DataFrame construction from a dict of arrays / a list of dic
            'cells and span labels cross to the Lean driver as opaque tokens (floats as IEEE bit patterns)']
 ASSUMPTIONS = ['variable names are distinct and none is called status/iterations (the constructor and add_variable '
                'raise DuplicateNameError otherwise; checked on every generated instance)',
+               'a series lives in the instance __dict__ under \'_\' + name (the ground truth of the oracles; if an entry is '
+               'not there the oracle falls back to obj[name] and counts ground-truth-fallback)',
+               'from_dataframe round trip: no variable is called like a positional parameter of __init__ (self, span; '
+               'reflected): `self` is accepted as a variable name and then from_dataframe raises TypeError (open finding '
+               'from-dataframe-self-column-typeerror, theorem from_dataframe_false_at_witness); a column labelled '
+               'default_value binds the parameter (modelled)',
                'span labels survive pandas Index construction unchanged (no None/NaN labels, no int/float mixtures): '
                'such spans are probed by the oracle only',
                'from_dataframe round trip is stated for float models (the constructor casts to the model dtype) and '
@@ -74,9 +96,9 @@ ASSUMPTIONS = ['variable names are distinct and none is called status/iterations
                '(the property is silent); the Lean theorems state what the code does (appended last, linker first)']
 
 META = {
-    "text": "Theorems for every store (any variables, span, cell type), flag combination, linker and symbol list: exported columns = model-order names (underscore-prefixed iff requested) ++ status? ++ iterations?, no duplicates, index = span, one cell per period, each column holds exactly its series; container export = index order; linker export = one table per submodel plus the linker's, keyed correctly (guard: linker name not a submodel key; count theorem without the guard); from_dataframe on any export reproduces span and the cast of every class variable (identity for float models); symbols_roundtrip: for EVERY symbol list, with the reflected coercion of the installed pandas, the code's decoder (is_missing = None or float NaN -> None in name/lags/leads/equation/code, int(field) otherwise for lags/leads) returns the original list (iff every type is a Type member); in general the round trip holds for every list IFF the decoder maps the coercion's missing markers back to None in every optional field, which the code's decoder does for any coercion whose markers are None/NaN. String identity: codeDecoder_preserves_strings (for EVERY string s a present str cell decodes to s itself in name/equation/code: is_missing never fires on a str, '' and whitespace-only included), present_strings_roundtrip (under ANY coercion, whenever the round trip returns, it returns one symbol per input symbol and every present str field unchanged), symbols_roundtrip_strings (installed pandas: it does return), toPy_injective ('' and None, 'x ' and 'x' are different values of the model, so equality with the original list is field-exact), normalising_decoder_breaks_roundtrip (a decoder that alters even one string in one str field fails on a one-symbol list). Tied to fsic/tools.py, BaseModel.from_dataframe, VectorContainer.to_dataframe by exact comparison of tables (cells as IEEE bits) on generated models/linkers/symbol lists; symbol round trips compared three ways (real output == model output == original list), including parser outputs and hand-built lists whose str fields are '' or carry leading/trailing/only whitespace (strings cross to the driver JSON-escaped and come back exactly).",
+    "text": "Theorems for every store (any variables, span, cell type), flag combination, linker and symbol list: exported columns = model-order names (underscore-prefixed iff requested) ++ status? ++ iterations?, no duplicates, index = span, one cell per period, each column holds exactly its series; container export = index order; linker export = one table per submodel plus the linker's, keyed correctly (guard: linker name not a submodel key; count theorem without the guard); NAME vs STORAGE KEY made explicit (Obj = the instance __dict__, storageKey name = '_' ++ name, getItem = obj[name]): storageKey_injective, export_reads_own_series (for EVERY name list, underscore twins and member-like names included, the column of k is the __dict__ entry under storageKey k and, when the entries are pairwise different, of no other key: not the entry under k itself, not another variable's), container_reads_own_series, toObj_getItem (the __dict__ a constructor builds gives every name its own entry), from_dataframe_reads_own_series (round trip down to __dict__), attrLookup_differs_at_twin (Python's getattr would return Y's series for _Y; equal to obj[k] off __dict__ keys); from_dataframe on any export reproduces span and the cast of every class variable (identity for float models); symbols_roundtrip: for EVERY symbol list, with the reflected coercion of the installed pandas, the code's decoder (is_missing = None or float NaN -> None in name/lags/leads/equation/code, int(field) otherwise for lags/leads) returns the original list (iff every type is a Type member); in general the round trip holds for every list IFF the decoder maps the coercion's missing markers back to None in every optional field, which the code's decoder does for any coercion whose markers are None/NaN. String identity: codeDecoder_preserves_strings (for EVERY string s a present str cell decodes to s itself in name/equation/code: is_missing never fires on a str, '' and whitespace-only included), present_strings_roundtrip (under ANY coercion, whenever the round trip returns, it returns one symbol per input symbol and every present str field unchanged), symbols_roundtrip_strings (installed pandas: it does return), toPy_injective ('' and None, 'x ' and 'x' are different values of the model, so equality with the original list is field-exact), normalising_decoder_breaks_roundtrip (a decoder that alters even one string in one str field fails on a one-symbol list). Tied to fsic/tools.py, BaseModel.from_dataframe, VectorContainer.to_dataframe by exact comparison of tables (cells as IEEE bits) on generated models/linkers/symbol lists; symbol round trips compared three ways (real output == model output == original list), including parser outputs and hand-built lists whose str fields are '' or carry leading/trailing/only whitespace (strings cross to the driver JSON-escaped and come back exactly).",
     "design_ref": "DESIGN.md §5 M8, §6 C19, §7 row 15",
-    "note": "Partial: pandas is outside the model (DataFrame/Index construction, dtype inference, None->NaN coercion, iterrows) - observed through the reflected table and by the oracle (dtype preservation). The two symbols round-trip findings (NaN for a missing name/equation/code; TypeError when every lags/leads entry is None) are fixed by fsic 56f842e: their oracle keys remain and a regression under them is a VIOLATION. Open known finding on the unchanged tree: a None span label is exported as NaN (df-index-none-label-nan). Trusted: Lean kernel, standard axioms, the correspondence harness.",
+    "note": "Partial: pandas is outside the model (DataFrame/Index construction, dtype inference, None->NaN coercion, iterrows) - observed through the reflected table and by the oracle (dtype preservation). The two symbols round-trip findings (NaN for a missing name/equation/code; TypeError when every lags/leads entry is None) are fixed by fsic 56f842e: their oracle keys remain and a regression under them is a VIOLATION. Open known findings on the unchanged tree: a None span label is exported as NaN (df-index-none-label-nan); a model with a variable called `self` cannot be re-imported (from-dataframe-self-column-typeerror: from_dataframe_roundtrip carries the guard CtorNamesOk, from_dataframe_false_at_witness proves the unguarded statement false). Trusted: Lean kernel, standard axioms, the correspondence harness.",
     "technique": "Lean 4 proof (induction over insertion-ordered dicts and symbol lists, decide on reflected tables) + differential correspondence check + property oracle on the real DataFrames"
 }
 
@@ -1067,7 +1089,8 @@ def one_model(ctx, rep, rec, M, m, items, ft_items, rng, flags_list=FLAGS, entri
                                    [rng.random() < 0.5 for _ in m.span] for j, nm in enumerate(M.NAMES)}, index=m.span)
                 if len(m.span) == 0:
                     df = df.astype(int)
-            if any(df[c].dtype.kind not in 'fiub' for c in df.columns if c in M.NAMES):
+                # (a column labelled default_value binds the constructor's parameter: it matters like a class variable's)
+            if any(df[c].dtype.kind not in 'fiub' for c in df.columns if c in M.NAMES or c == 'default_value'):
                 continue
         except Exception:  # noqa: BLE001  (the export itself failed: reported above)
             rep.dist['from_dataframe-skipped:export-failed'] += 1
@@ -1431,6 +1454,8 @@ def gen_names(rng, host):
     rng.shuffle(names)
     if host == 'parser':
         names = [x for x in names if x.isidentifier()]
+    if host == 'runtime':        # (the base class already declares Y and X: their twins stay, they themselves go)
+        names = [x for x in names if x not in ('Y', 'X')] or ['_Y', '__Y']
     return names
 
 
